@@ -108,15 +108,15 @@ func clientGoroutines() map[string]int {
 // RunClose is the engine behind C12.
 func RunClose(e *Env) {
 	R := e.R
-	R.Rule = "grid (seeded sample in quick): send buffer {0,1,4,64} x node states (connected, never connected = refused, server killed = reconnecting) x in-flight calls of every kind (handlers that never answer) x strike point of Close placed with hooks " +
-		"(idle, enq.registered = queued, snd.dequeued, snd.beforeWrite = being written, awaiting reply, rec.backoff = receiver asleep in back-off, rcv.beforeRoute / rcv.afterRoute = receiver has another call's reply in hand) x {one Close, 2-8 concurrent Closes, Close twice}; servers run in a child process so that every goroutine with a grpc/gorums frame in the client process belongs to the manager; " +
+	R.Rule = "grid (seeded sample in quick): send buffer {0,1,4,64} x node states (connected, never connected = refused, server killed = reconnecting) x in-flight calls of every kind (handlers that never answer; streaming correctables whose reply channel is full because the quorum function is busy) x strike point of Close placed with hooks " +
+		"(idle, enq.registered = queued, snd.dequeued, snd.beforeWrite = being written, awaiting reply, rec.backoff = receiver asleep in back-off, rcv.beforeRoute / rcv.afterRoute = receiver has another call's reply in hand) x {one Close, 2-8 concurrent Closes, Close twice}; plus Close racing with NewConfiguration on a manager whose 3-5 nodes were registered with AddNode in descending id order; servers run in a child process so that every goroutine with a grpc/gorums frame in the client process belongs to the manager; " +
 		"oracle after Close returned: every in-flight call returns (hang rule); calls of every kind issued afterwards with context.Background() and with a deadline return or complete, without panic; no client goroutine with a grpc/gorums frame survives (polled up to W, baseline taken before the manager was created); " +
 		"the server child reports no live stream; no panic from repeated or concurrent Close; distinct = grid point"
 	R.Assume("tarpit node state (accept, never speak HTTP/2) is left to the thorough tier: creating a configuration against it takes gRPC's 20 s minimum connect timeout")
 	rng := e.Rand(12)
 	var cases []CCase
 	strikes := []string{"idle", "enq.registered", "snd.dequeued", "snd.beforeWrite", "awaiting-reply", "rec.backoff", "rcv.beforeRoute", "rcv.afterRoute"}
-	kinds := []string{"RPC", "QC", "Async", "Corr", "CorrStream", "Uni", "Multi", "Uni-nowait", "Multi-nowait"}
+	kinds := []string{"RPC", "QC", "Async", "Corr", "CorrStream", "Uni", "Multi", "Uni-nowait", "Multi-nowait", "CorrStream-busy"}
 	for i := 0; i < e.Pick(120, 9000); i++ {
 		c := CCase{Buffer: []uint{0, 1, 4, 64}[rng.Intn(4)], N: 1 + rng.Intn(3), Strike: strikes[rng.Intn(len(strikes))], Closers: []int{1, 1, 2, 8}[rng.Intn(4)], Twice: rng.Intn(3) == 0}
 		for j := 0; j < c.N; j++ {
@@ -152,6 +152,16 @@ func RunClose(e *Env) {
 			break
 		}
 		runCloseCase(e, i, c)
+	}
+	// Close racing with the creation of a configuration, on a manager whose nodes were registered with AddNode in no particular order
+	for rep := 0; rep < e.Pick(16, 200); rep++ {
+		if e.Of > 1 && rep%e.Of != e.Batch {
+			continue
+		}
+		if R.NumViolations() > 8 {
+			break
+		}
+		runCloseAddNodeCase(e, rep, 3+rep%3, []uint{0, 4}[rep%2])
 	}
 	if e.Batch == 0 {
 		// every manager option: a manager created with WithNoConnect must close like any other
@@ -248,7 +258,14 @@ func runCloseCase(e *Env, idx int, c CCase) {
 	issue := func(kind string, ctx context.Context, reqKind uint32) *h.Task {
 		tok := h.NewToken()
 		req := &puppet.Req{Call: tok, Seq: tok, Kind: reqKind}
-		qs.Register(&h.CallMon{Token: tok, Orig: req, Decide: func(inv *h.Inv) (bool, int) { return len(inv.Keys) >= c.N, len(inv.Keys) }})
+		if kind == "CorrStream-busy" && reqKind == 77 {
+			// every server streams two replies and then stays silent; the quorum function is still busy with the first one when
+			// Close strikes, so the call's reply channel is full
+			req.Kind = 78
+			qs.Register(&h.CallMon{Token: tok, Orig: req, Decide: func(inv *h.Inv) (bool, int) { time.Sleep(120 * time.Millisecond); return false, len(inv.Keys) }})
+		} else {
+			qs.Register(&h.CallMon{Token: tok, Orig: req, Decide: func(inv *h.Inv) (bool, int) { return len(inv.Keys) >= c.N, len(inv.Keys) }})
+		}
 		return h.Go("c12:"+kind, func() {
 			switch kind {
 			case "RPC":
@@ -259,7 +276,7 @@ func runCloseCase(e *Env, idx int, c CCase) {
 				cfg.Async(ctx, req).Get()
 			case "Corr":
 				<-cfg.Corr(ctx, req).Done()
-			case "CorrStream":
+			case "CorrStream", "CorrStream-busy":
 				<-cfg.CorrStream(ctx, req).Done()
 			case "Uni":
 				node(0).Uni(ctx, req)
@@ -394,7 +411,15 @@ func runCloseCase(e *Env, idx int, c CCase) {
 	}
 	// (a) in-flight calls return
 	for i, t := range inflight {
-		hi := h.Await(t, e.W)
+		var hi h.HangInfo
+		if strings.HasPrefix(calls[i], "Corr") {
+			hi = h.AwaitCompletion(t, e.W, "handleCorrectableCall") // (these tasks wait on the correctable's Done channel, in harness code)
+		} else {
+			hi = h.Await(t, e.W)
+		}
+		if hi.Verdict == h.Inconclusive {
+			R.Inconc(fmt.Sprintf("in-flight %s after Close: task %s, no verdict", calls[i], hi.State))
+		}
 		if hi.Verdict == h.Hung {
 			det["stack"] = hi.Stack
 			det["others"] = hi.Others
@@ -494,6 +519,113 @@ func runCloseCase(e *Env, idx int, c CCase) {
 	R.Seen("send_buffers", fmt.Sprint(c.Buffer))
 	R.Count("in_flight_calls", int64(len(inflight)))
 	R.Sample(map[string]any{"case": c, "steering": steering})
+}
+
+// runCloseAddNodeCase: n nodes registered through Manager.AddNode in descending ID order; Close and NewConfiguration(WithNodeIDs)
+// start together. Whatever the outcome of the latter, once both have returned no goroutine or connection of the manager survives.
+func runCloseAddNodeCase(e *Env, idx, n int, buffer uint) {
+	R := e.R
+	sc, err := startServeChild(n)
+	if err != nil {
+		R.Inconc("serve child: " + err.Error())
+		return
+	}
+	defer sc.stop()
+	time.Sleep(5 * time.Millisecond)
+	base := clientGoroutines()
+	mgr := puppet.NewManager(gorums.WithDialTimeout(500*time.Millisecond), gorums.WithSendBufferSize(buffer), gorums.WithGrpcDialOptions(append(h.DialOpts(), grpc.WithBlock())...))
+	ids := make([]uint32, n)
+	for j := range ids {
+		ids[j] = h.NewNodeID()
+	}
+	det := map[string]any{"nodes": n, "send_buffer": buffer, "script": "AddNode in descending id order; Close || NewConfiguration(WithNodeIDs)"}
+	for j := n - 1; j >= 0; j-- {
+		node, err := gorums.NewRawNodeWithID(sc.addrs[j], ids[j])
+		if err == nil {
+			err = mgr.AddNode(node)
+		}
+		if err != nil {
+			R.Inconc("AddNode: " + err.Error())
+			mgr.Close()
+			return
+		}
+	}
+	var start sync.WaitGroup
+	start.Add(1)
+	var cfg *puppet.Configuration
+	var cfgErr error
+	tc := h.Go("NewConfiguration", func() {
+		start.Wait()
+		for k := 0; k < 3; k++ { // (each constructor ends by sorting the manager's node list)
+			cfg, cfgErr = mgr.NewConfiguration(gorums.WithNodeIDs(ids), &h.QSpec{})
+		}
+	})
+	tcl := h.Go("Close", func() { start.Wait(); mgr.Close() })
+	start.Done()
+	for _, t := range []*h.Task{tcl, tc} {
+		hi := h.Await(t, e.W)
+		if hi.Verdict == h.Hung {
+			det["stack"] = hi.Stack
+			R.Violate("close-does-not-return:"+hi.Sig, t.Label+" racing with the other did not return: "+hi.Sig, det)
+			return
+		}
+		if t.Panic != nil {
+			det["panic"] = t.Panic
+			R.Violate("close-panics", fmt.Sprintf("%s panicked: %.200v", t.Label, t.Panic), det)
+			return
+		}
+	}
+	det["new_configuration"] = fmt.Sprintf("cfg=%v err=%v", cfg != nil, cfgErr)
+	deadline := time.Now().Add(e.W)
+	var left map[string]int
+	for {
+		left = map[string]int{}
+		for k, v := range clientGoroutines() {
+			if v > base[k] {
+				left[k] = v - base[k]
+			}
+		}
+		if len(left) == 0 || time.Now().After(deadline) {
+			break
+		}
+		time.Sleep(10 * time.Millisecond)
+	}
+	if len(left) > 0 {
+		first, cls := "", "grpc"
+		for k := range left {
+			if first == "" || k < first {
+				first = k
+			}
+		}
+		for k := range left {
+			if strings.Contains(k, "relab/gorums") {
+				cls, first = "gorums", k
+			}
+		}
+		det["survivors"] = left
+		R.Violate("goroutines-survive-close:"+cls+":"+goroutineClass(first), fmt.Sprintf("%d kinds of client goroutines are still alive %v after Close returned, e.g. %s", len(left), e.W, first), det)
+		return
+	}
+	conns := sc.cmdLine("CONNS")
+	for dl := time.Now().Add(e.W); time.Now().Before(dl); conns = sc.cmdLine("CONNS") {
+		live := false
+		for _, f := range strings.Fields(conns)[1:] {
+			live = live || f != "0"
+		}
+		if !live {
+			break
+		}
+		time.Sleep(10 * time.Millisecond)
+	}
+	for _, f := range strings.Fields(conns)[1:] {
+		if f != "0" {
+			det["server_streams"] = conns
+			R.Violate("connections-open-after-close", "server-side streams of the closed manager are still open: "+conns, det)
+			return
+		}
+	}
+	R.Eval(fmt.Sprintf("close||new-configuration|n=%d|buffer=%d|%d", n, buffer, idx), true)
+	R.Count("closes_racing_with_configuration_creation", 1)
 }
 
 func goroutineClass(s string) string {
